@@ -282,6 +282,11 @@ m("C09-r4", "C09", "libwallet/src/slate_versions/ser.rs", "\t\t\t\t\tif val.len(
 m("C04-r7lb", "C04", "libwallet/src/api_impl/owner.rs", "\tlet start_index = last_scanned_block.height.saturating_sub(100);", "\tlet start_index = last_scanned_block.height.saturating_sub(10);", "C04.R7")
 m("C10-r5", "C10", "libwallet/src/slatepack/packer.rs", "\t\tslatepack.try_encrypt_payload(self.0.recipients.clone())?;", "\t\tif slatepack.sender.is_some() {\n\t\t\tslatepack.try_encrypt_payload(self.0.recipients.clone())?;\n\t\t}", "C10.R5")
 
+m("C11-r10", "C11", "libwallet/src/internal/tx.rs", "\t\t.find(|t| t.tx_type == TxLogEntryType::TxSent)\n\t\t.and_then(|t| t.payment_proof.clone());", "\t\t.next()\n\t\t.and_then(|t| t.payment_proof.clone());", "C11.R10")
+m("C06-r8rel", "C06", "libwallet/src/internal/scan.rs", "\tfor mut o in released {\n\t\to.status = OutputStatus::Unspent;\n\t\tbatch.save(o)?;\n\t}\n", "\tdrop(released);\n", "C06.R8")
+m("C20-r4", "C20", "libwallet/src/internal/scan.rs", "\t\tlet current_child_index = w.current_child_index(&path)?;\n\t\tif *max_child_index >= current_child_index {", "\t\tlet current_child_index = *start_indices.get(path).unwrap_or(&0);\n\t\tif *max_child_index >= current_child_index {", "C20.R4")
+m("C06-r9", "C06", "libwallet/src/internal/scan.rs", "\t// restore labels, account paths and child derivation indices\n", "\t// restore labels, account paths and child derivation indices\n\tif delete_unconfirmed {\n\t\tfound_parents.clear();\n\t}\n", "C06.R9")
+
 
 def for_property(prop):
     return [x for x in M if x["property"] == prop]
